@@ -28,6 +28,24 @@ Theorem C36_never_twice : forall (c : list op) (x : ack),
 Proof. exact sent_within_received. Qed.
 Print Assumptions C36_never_twice.
 
+(* Acknowledgements of a publish request that failed are sent again with a later one: the very
+   next request carries them (and everything else that waited), for any state and any in-flight
+   request that fails. *)
+Theorem C36_failed_resent : forall (s : st) (k : Z), inflight s <> [] ->
+  let i := pick k (length (inflight s)) in
+  let s' := step (step s (RespErr k)) Start in
+  inflight s' = remove_nth i (inflight s) ++ [pending s ++ nth i (inflight s) []] /\ pending s' = [].
+Proof. exact failed_resent. Qed.
+Print Assumptions C36_failed_resent.
+
+(* Subscription changes on the client, and publish calls that never reach the server, do not touch
+   the bookkeeping (so the theorems above cover histories containing them). *)
+Theorem C36_neutral_operations : forall (s : st) (o : op),
+  match o with StartDown _ | SubAdd _ | SubDel _ | SubMod _ | SubPub _ => True | _ => False end ->
+  step s o = s.
+Proof. exact down_and_subscription_changes_are_neutral. Qed.
+Print Assumptions C36_neutral_operations.
+
 (* The executable oracle used on the implementation's observations holds on the model for every
    operation sequence (no validity hypothesis is needed: every sequence is a valid history). *)
 Theorem C36_oracle : forall c : case, known c = 0 -> oracle c (run c) = true.
